@@ -156,10 +156,17 @@ pub fn set_forced(id: &str, values: Vec<u64>) {
 }
 
 /// Takes the next forced outcome for an injection site.
+///
+/// The last queued value stays in place, i.e., it is what every further
+/// call returns.
 pub fn forced(id: &str) -> Option<u64> {
     let mut reg = registry().0.lock().unwrap();
     let queue = reg.forced.get_mut(id)?;
-    if queue.is_empty() { None } else { Some(queue.remove(0)) }
+    match queue.len() {
+        0 => None,
+        1 => Some(queue[0]),
+        _ => Some(queue.remove(0))
+    }
 }
 
 /// Increments a named counter and returns the new value.
